@@ -89,6 +89,41 @@ def locked(node):
                for a in ancestors(node))
 
 
+def r9_timeout_feedback_class(ctx, sym):
+    ctx.rule('R9', "the one feedback is the timeout's: pedal's EXCEPTION_FF_MAP, evaluated abstractly (whatever kind of "
+                   "table it is) and queried the way Sandbox._capture_exception and runtime_error.__init__ query it - "
+                   ".get(type(exception), runtime_error), `type(exception) in`, `[type(exception)].title` - answers for "
+                   "TimeoutError with the class registered for TimeoutError (CPython: TimeoutError derives OSError, "
+                   "which is IOError, which has a row of its own)")
+    from .. import symexec
+    fmod = ctx.repo.module('pedal.sandbox.feedbacks')
+
+    def evaluate(expr):
+        fn_ = ast.parse("def _expression():\n    return %s" % expr).body[0]
+        fn_._module, fn_._qualname = fmod, '_expression'
+        for n in ast.walk(fn_):
+            for c in ast.iter_child_nodes(n):
+                c._parent = n
+        fd = symexec.new_fd(sym, fmod)
+        return symexec.run(fd, fn_, [], what='EXCEPTION_FF_MAP query')
+
+    def class_name(v):
+        return getattr(getattr(v, '_fd_class', None), 'name', None)
+    want, raised = evaluate("dict(EXCEPTION_FF_MAP.items())[TimeoutError]")
+    ctx.require(raised is None and class_name(want) is not None, "EXCEPTION_FF_MAP has a row for TimeoutError")
+    for query in ("EXCEPTION_FF_MAP.get(TimeoutError, runtime_error)", "EXCEPTION_FF_MAP[TimeoutError]",
+                  "TimeoutError in EXCEPTION_FF_MAP"):
+        got, raised = evaluate(query)
+        ok = raised is None and (got is True if query.endswith('in EXCEPTION_FF_MAP') else
+                                 class_name(got) == class_name(want))
+        ctx.check(ok, 'R9', 'timeout-feedback-class[%s]' % query, fmod, fmod.top_assign('EXCEPTION_FF_MAP'),
+                  "%s is %s; the row registered for TimeoutError is %s" % (
+                      query, 'raises %s' % raised.kind if raised is not None else (class_name(got) or got),
+                      class_name(want)),
+                  "any time-limit violation in threaded mode is reported as 'Input/Output Error' with the advice "
+                  "'you tried to open a file that was not available'", construct='EXCEPTION_FF_MAP')
+
+
 def timeout_returns_result(ctx, sym, rule):
     """timeout() executed abstractly against a model thread that finishes in time: what the function returned is what
     timeout() returns (Sandbox._import hands a student module back through it)."""
@@ -127,6 +162,7 @@ def run(ctx):
     ewt = mod.func('Sandbox._execute_with_timeout')
     ctx.analysed_function(mod, ex)
     ctx.analysed_function(mod, ewt)
+    r9_timeout_feedback_class(ctx, sym)
 
     ctx.rule('R1', "roles derived from the code: student role = what Sandbox._execute does after the asynchronously "
                    "injected SystemExit (its SystemExit/BaseException handlers, the else arm, the tail) and everything "
